@@ -74,17 +74,6 @@ def step (a : Acc) (toks : List String) : Acc :=
 
 def ancestors (cls : String) : List String := (Gen.C06Types.excAncestors.lookup cls).getD []
 
-/-- the observable form of a model outcome -/
-def observe (anc : String → List String) : Outcome → OutObs
-  | .ret items => .ret items
-  | .exc e =>
-    let info : ExcInfo := { cls := e.cls, mro := anc e.cls }
-    match e with
-    | .actionError c d => .exc { info := info, code := c, desc := d }
-    | .actionResponseError c d s => .exc { info := info, code := c, desc := d, status := some s }
-    | .responseError s => .exc { info := info, status := some s }
-    | _ => .exc { info := info }
-
 def obsShow : OutObs → String
   | .ret items => "ret{" ++ ", ".intercalate (items.map fun p => shw p.1 ++ "=" ++ valTok p.2) ++ "}"
   | .exc e => s!"exc {excShow (some e.info)} code={repr e.code} desc={e.desc.map shw} status={repr e.status}"
